@@ -164,6 +164,18 @@ Qed.
 (* ------------------------------------------------------------------ time of day *)
 Ltac Zify.zify_post_hook ::= Z.to_euclidean_division_equations.
 
+(* Date(datetime): the time of day never moves the date, before or after the epoch *)
+Lemma date_from_datetime_day : forall y m d hh mm ss, valid_tod hh mm ss = true ->
+  date_from_datetime y m d hh mm ss = days_from_civil y m d.
+Proof.
+  intros y m d hh mm ss V. unfold valid_tod in V. repeat (apply andb_true_iff in V; destruct V as [V ?]).
+  rewrite ?Z.leb_le in *. unfold date_from_datetime, timegm. generalize (days_from_civil y m d). intro n. lia.
+Qed.
+
+Lemma date_from_datetime_roundtrip : forall y m d hh mm ss, valid_date y m d = true -> valid_tod hh mm ss = true ->
+  civil_from_days (date_from_datetime y m d hh mm ss) = (y, m, d).
+Proof. intros. rewrite date_from_datetime_day by assumption. apply civil_of_days_of_civil. assumption. Qed.
+
 Lemma time_fields_ok : forall n, 0 <= n < DAY ->
   of_fields (time_hour n) (time_minute n) (time_second n) (time_nanosecond n) = n /\
   0 <= time_hour n <= 23 /\ 0 <= time_minute n <= 59 /\ 0 <= time_second n <= 59 /\ 0 <= time_nanosecond n <= 999999999.
